@@ -47,8 +47,8 @@ def line_token(t):
     m = SUB_RE.match(t)
     if m:
         return m.group(1)
-    toks = [w for w in t.replace("\t", " ").split(" ") if w.startswith("T") and w.endswith("q") and w[1:-1].isdigit()]
-    return toks[0] if toks else None
+    m = re.search(r"T\d+q", t)
+    return m.group(0) if m else None
 
 
 def expected_occurrences(d, cfg):
@@ -227,6 +227,17 @@ def gen_cases(tier, seed):
             if r.random() < 0.6:
                 s_["pre"] = ([""] if r.random() < 0.4 else []) + gdiff.gen_log_wrapper(r)
         cases.append(("log", d, gdiff.rand_cfg(r, color_only=False)))
+    # hunk lines whose text begins with a character that attaches to what precedes it (combining marks, vowel signs,
+    # variation selector, zero-width joiner): only the marker column may go, in two-way and combined diffs alike
+    for i in range(n // 8):
+        r = vlib.case_rng(seed, PID, ("unicode-first", i))
+        tok = gdiff.Tok()
+        fam = r.choice([["mod", "mod", "add", "cc"], ["mod", "mod", "add", "cc"], ["diffu"]])   # a stream is git's or plain diff's
+        secs = [gdiff.gen_section(r, tok, kind=r.choice(fam)) for _ in range(r.randint(1, 2))]
+        for s_ in secs:
+            for h in s_["hunks"]:
+                h["body"] = [(k, (r.choice(["\u0301", "\u064e", "\u0e33", "\u093e", "\ufe0f", "\u200d", "\u0308"]) + t) if r.random() < 0.5 else t) for k, t in h["body"]]
+        cases.append(("unicode-first", {"pre": [], "sections": secs}, gdiff.rand_cfg(r, color_only=False)))
     # plain `diff -u` streams (no git headers), with removed / added lines that look like file header lines
     for i in range(n // 5):
         r = vlib.case_rng(seed, PID, ("diffu", i))
@@ -325,11 +336,11 @@ def main(tier, replay=None):
         nontriv = len(d["sections"]) >= 2 or any(
             {"-", "+"} <= {c_ for k, _ in h["body"] for c_ in k} for s in d["sections"] for h in s["hunks"])
         chk.case((tuple(lines), cfg.key()), nontriv, {"cfg": cfg.as_dict(), "input": lines[:14], "n_lines": len(lines)})
-        if not cfg.color_only and kind not in ("diff-u", "combined", "conflict", "submodule"):
+        if not cfg.color_only and kind not in ("diff-u", "combined", "conflict", "submodule", "unicode-first"):
             sd = vm.ask("delta_sides", cfg.tabs, cfg.B, ",".join(vlib.hexs(l) for l in lines))
             chk.count("theorem_side_condition:" + sd)
         # the line state machine model covers git's output; plain `diff -u` streams are decided by the oracle alone
-        m = gdiff.render_items(gdiff.model_items(vm, lines, cfg), cfg) if kind not in ("diff-u", "combined", "conflict", "submodule") else rows
+        m = gdiff.render_items(gdiff.model_items(vm, lines, cfg), cfg) if kind not in ("diff-u", "combined", "conflict", "submodule", "unicode-first") else rows
         if kind == "conflict" and rc == 0 and len(d["sections"]) == 1 and len(d["sections"][0]["hunks"]) == 1 and d["sections"][0]["kind"] == "ccconf":
             n_conf += 1
             bad = conflict_model_rows(vm, d, cfg, rows)
